@@ -134,7 +134,9 @@ func writeValue(w io.Writer, v interface{}, sdl bool, depth, indent int) (err er
 				_, err = w.Write([]byte{'"'})
 			}
 		default:
-			_, err = w.Write([]byte(fmt.Sprintf(`"%v"`, v)))
+			// Not a value of a GraphQL type. It is written as a string, with
+			// the characters a string can not have as they are escaped.
+			err = writeString(w, fmt.Sprintf("%v", v), true)
 		}
 	}
 	return
